@@ -74,7 +74,7 @@ def size_classes(block):
 
 
 def gen_content(rng, block=32768, maxlen=65536, minlen=0):
-    tex = rng.wpick([(4, "rand"), (3, "rep"), (3, "code"), (1, "zero"), (2, "text")])
+    tex = rng.wpick([(4, "rand"), (3, "rep"), (3, "code"), (1, "zero"), (2, "text"), (1, "crc0")])
     if rng.chance(0.6):
         cands = [s for s in size_classes(block) if minlen <= s <= maxlen]
         n = rng.pick(cands) if cands else minlen
@@ -96,6 +96,12 @@ def materialize(rc) -> bytes:
         return b""
     if tex == "rand":
         return r.getrandbits(8 * n).to_bytes(n, "little")
+    if tex == "crc0":
+        # content whose CRC32 is 0 (or all ones): a legal digest that is falsy / looks like "undefined"
+        if n < 4:
+            return forge_crc32(b"", 0)[:4]
+        body = r.getrandbits(8 * (n - 4)).to_bytes(n - 4, "little")
+        return forge_crc32(body, r.choice([0, 0, 0xFFFFFFFF]))
     if tex == "zero":
         return bytes(n)
     if tex == "rep":
@@ -133,6 +139,45 @@ def materialize(rc) -> bytes:
                 out += r.getrandbits(8 * 6).to_bytes(6, "little")
         return bytes(out[:n])
     raise ValueError(tex)
+
+
+_CRC_TABLE = None
+
+
+def forge_crc32(data: bytes, target: int = 0) -> bytes:
+    """data + 4 bytes such that zlib.crc32(result) == target."""
+    import zlib
+
+    global _CRC_TABLE
+    if _CRC_TABLE is None:
+        t = []
+        for i in range(256):
+            c = i
+            for _ in range(8):
+                c = (c >> 1) ^ 0xEDB88320 if c & 1 else c >> 1
+            t.append(c)
+        _CRC_TABLE = t
+    t = _CRC_TABLE
+    rev = {t[i] >> 24: i for i in range(256)}
+    want = target ^ 0xFFFFFFFF
+    cur = zlib.crc32(data) ^ 0xFFFFFFFF
+    # walk the register backwards through four table steps
+    idx = []
+    w = want
+    for _ in range(4):
+        i = rev[w >> 24]
+        idx.append(i)
+        w = ((w ^ t[i]) << 8) & 0xFFFFFFFF
+    idx.reverse()
+    reg = cur
+    patch = bytearray()
+    for i in idx:
+        b = (reg ^ i) & 0xFF
+        patch.append(b)
+        reg = (reg >> 8) ^ t[i]
+    out = data + bytes(patch)
+    assert zlib.crc32(out) == target, "crc forge failed"
+    return out
 
 
 def content_digest(b: bytes) -> str:
